@@ -218,6 +218,17 @@ func init() {
 		m.ps.notes = append(m.ps.notes, m.concStr(a[0], "note"))
 		return nil, true
 	})
+	zz("AllocsLE", func(m *Machine, th *Thread, fn *ssa.Function, a []Value) (Value, bool) {
+		b := argTerm(m, a[0])
+		r := TrueT
+		for _, al := range m.ps.allocs {
+			r = And(r, SLe(al, b))
+		}
+		return r, true
+	})
+	zz("SymAllocs", func(m *Machine, th *Thread, fn *ssa.Function, a []Value) (Value, bool) {
+		return BVC(64, uint64(len(m.ps.allocs))), true
+	})
 	zz("IsSymbolicRun", func(m *Machine, th *Thread, fn *ssa.Function, a []Value) (Value, bool) { return TrueT, true })
 	zz("Unsupported", func(m *Machine, th *Thread, fn *ssa.Function, a []Value) (Value, bool) {
 		m.unsupported("harness: %s", m.concStr(a[0], "msg"))
